@@ -8,6 +8,7 @@ mod gen;
 mod merge;
 mod parse;
 mod proj;
+mod rewrite;
 mod run;
 mod util;
 mod xmlser;
@@ -28,6 +29,10 @@ fn main() {
         "merge-record" => merge::record(&args),
         "parser-replay" => parse::replay(&args),
         "schema-record" => parse::record_schema(&args),
+        "docs-trace" => parse::docs_trace(&args),
+        "c11-rewrite" => rewrite::c11(&args),
+        "c06-algebra" => rewrite::c06(&args),
+        "pair-compare" => rewrite::pair_compare(&args),
         other => {
             eprintln!("unknown sub-command {}", other);
             std::process::exit(2);
